@@ -274,7 +274,7 @@ func checkC11(c *Ctx) {
 		c.Unresolved("R10", "upstream.createClientCalls")
 	}
 	c.Rule("R11", "a SCAN cursor cannot index past the node list (shared with C18.R2): the node index taken from the cursor is tested against the length of the list it indexes")
-	c.withAlias(map[string]string{"R2": "R11", "R1": "", "R3": "", "R4": "", "R5": "", "R6": "", "R7": "", "R8": "", "R9": "", "R10": ""}, func() { checkC18(c) })
+	c.withAlias(map[string]string{"R2": "R11", "R1": "", "R3": "", "R4": "", "R5": "", "R6": "", "R7": "", "R8": "", "R9": "", "R10": "", "R11": ""}, func() { checkC18(c) })
 	c.Rule("R9", "every loop in the input cone ends by construction: range loop, counted loop, slice-consuming loop, or a loop that waits for input every iteration - no loop whose exit depends only on links looked up in peer-built data")
 	checkLoopsTerminate(c, "R9", cone)
 
